@@ -16,7 +16,7 @@ FINISH = dict(level="proof", rule=(
     "names that are hidden, 255 bytes long, contain newlines, spaces, dashes, non-ASCII bytes or look like '...', directories "
     "left with mode 000, 'many' (up to 300; thorough 20000) entries and chains deeper than PATH_MAX (3000 levels); non-trivial: "
     "a history leaving at least 3 kinds of entry and one 000 directory.  memfd: sizes 0..4 MiB around page and buffer boundaries "
-    "x 10 reader kinds; non-trivial: size > 0 with a reader that is not a plain byte slice; distinct = distinct cases."))
+    "x 14 reader kinds (among them files, byte readers and section readers whose beginning was already consumed); non-trivial: size > 0 with a reader that is not a plain byte slice; distinct = distinct cases."))
 
 HDR = "From Coq Require Import List NArith.\nImport ListNotations.\nFrom GS Require Import Container.Reset Container.EvalReset.\n"
 NAMES = ["a", "b", "c", ".hidden", "...", " sp ace", "-dash", "né", "nl\nx", "x" * 255, ".x", "tmp", "w", "core", "\x01\x7f"]
@@ -147,6 +147,12 @@ def run(c):
     cases.append({"id": len(cases), "mode": "reset", "mounts": ["/w", "/tmp"], "rwbind": True,
                   "cycles": [[["regx", "/data/left-by-a-tenant", "x", "dir", "/data/d", "-", "regx", "/w/b", "-"]]]})
     meta.append((None, False))
+    # the container init has a small descriptor limit and a program leaves a chain deeper than it: Reset may fail (and then says so), it may not
+    # acknowledge with the chain still there
+    for depth in (300, 700):
+        cases.append({"id": len(cases), "mode": "reset", "mounts": ["/w", "/tmp"], "nofile": 256,
+                      "cycles": [[["dir", "/w/dd", "-", "deep", "/w/dd", str(depth), "dir", "/tmp/dd", "-", "deep", "/tmp/dd", str(depth), "regx", "/w/b", "-"]]]})
+        meta.append((None, False))
     obs = c.run_harness(exe, cases, env=env, timeout=1800)
     items, item_src, dis = [], [], []
     for x, (model, big), o in zip(cases, meta, obs):
@@ -165,6 +171,10 @@ def run(c):
             prog = json.loads(co["after_prog"]) if co.get("after_prog", "").startswith("{") else None
             if prog is None:
                 c.finding_or_violation(canon("no program can be run after Reset", out=str(co.get("after_prog"))[:80]), rep, klass="unusable")
+                continue
+            if x.get("nofile") and co.get("reset_err"):
+                # an honest failure: nothing is claimed clean
+                c.count(json.dumps([x["cycles"], ci, "nofile"]), nontrivial=True, klass="reset:refused-honestly")
                 continue
             for m in (x["mounts"] + (["/data"] if x.get("rwbind") else [])):
                 left = sorted(set(co["after_host"].get(m) or []) | set(prog.get(m) or []))
@@ -207,7 +217,7 @@ def run(c):
     sizes = [0, 1, 2, 511, 512, 513, 4095, 4096, 4097, 8191, 8192, 32767, 32768, 32769, 65535, 65536, 65537, 1 << 20, (1 << 20) + 1]
     if not c.quick():
         sizes += [(4 << 20) - 1, 4 << 20, (4 << 20) + 123] + [r.randint(0, 300000) for _ in range(40)]
-    readers = ["bytes", "buffer", "dataerr", "onebyte", "half", "limited", "file", "pipe", "timeout"]
+    readers = ["bytes", "buffer", "dataerr", "onebyte", "half", "limited", "file", "pipe", "timeout", "file_off", "file_read", "bytes_off", "section"]
     mc = []
     for s in sizes:
         for rd in readers:
